@@ -33,8 +33,12 @@ def show_value(v):
     k = v["k"]
     if k == "int":
         return str(v["i"])
+    if k == "bool":
+        return str(bool(v["bi"]))
+    if k == "float":
+        return repr(float(v["fi"]))
     if k == "str":
-        return '"' + "".join("ab"[c - 1] for c in v["s"]) + '"'
+        return '"' + "".join(("a", "b", "\\n")[c - 1] for c in v["s"]) + '"'
     if k == "list":
         return "[" + ", ".join(show_value(x) for x in v["l"]) + "]"
     if k == "dict":
@@ -74,7 +78,7 @@ def show_expr(e):
         elif k in ("kms", "attrs"):
             args.append("{" + ", ".join("%s: %s" % (p[0], show_expr(p[1])) for p in x) + "}")
         elif k == "pat":
-            args.append("/" + "".join((".ab"[a["c"]]) + ("*" if a["star"] else "") for a in x["atoms"]) + ("$" if x["anch"] else "") + "/")
+            args.append("/" + "".join(((".", "a", "b", "\\n")[a["c"]]) + ("*" if a["star"] else "") for a in x["atoms"]) + ("$" if x["anch"] else "") + "/" + x.get("fl", ""))
         elif k == "fo":
             if x:
                 args.append("first_only=True")
@@ -99,6 +103,11 @@ def variants_for(e, v, rnd, extra_setwise=2):
         out.append(dict(perm=0, shared=True))
     if mc.has_alt(e):
         out.append(dict(perm=0, alt=True))
+    if mc.has_op(e, ("MatchesRegex",)):
+        # cross-matcher state: the same patterns with other flags are used first, on the same value
+        out.append(dict(perm=0, twin=1))
+        if not LIGHT:
+            out.append(dict(perm=0, twin=2))
     return out
 
 
@@ -120,8 +129,12 @@ def check_pair(e, v, expected, cx, pool, rnd, variants):
     fails = []
     for var in variants:
         mc.jitter(rnd)
-        env = mc.Env(cx, pool, rnd=rnd, **var)
+        envkw = {k: x for k, x in var.items() if k != "twin"}
+        env = mc.Env(cx, pool, rnd=rnd, **envkw)
         val = mc.build_value(v, env)
+        if var.get("twin"):
+            # a sibling matcher (same regex patterns, other flags) matches first: it must not influence `m`
+            mc.verdict(mc.build_matcher(mc.regex_twin(e, var["twin"]), mc.Env(cx, pool, rnd=rnd)), val)
         m = mc.build_matcher(e, env)
         sm0 = mc.snapshot(m)
         sv0 = mc.snap_value(v, val)
@@ -164,7 +177,7 @@ def localise_all(failures, pool, rep, rnd):
             continue
         env = None
         for attempt in range(80):
-            env = mc.Env(f["cx"], pool, rnd=rnd, **f["variant"])
+            env = mc.Env(f["cx"], pool, rnd=rnd, **{k: x for k, x in f["variant"].items() if k != "twin"})
             val = mc.build_value(f["v"], env)
             m = mc.build_matcher(f["e"], env)
             r, _ = mc.verdict(m, val)
@@ -280,7 +293,7 @@ def replay_rows(rep, rows, uni, pool, rnd, source, sample_every=9973):
 def random_rows(rep, pool, rnd, n, maxdepth, source):
     """code -> spec: random typed pairs, verdict recorded from the real matcher, decided by TLC."""
     g = mc.Gen(rnd)
-    sorts = ["int", "str", "lint", "lint", "lstr", "llint", "llint", "dict", "dict", "obj", "exc", "call", "path"]
+    sorts = ["int", "str", "str", "num", "lint", "lint", "lstr", "lstr", "llint", "lnum", "lnum", "dict", "dict", "obj", "exc", "call", "path"]
     rows = []
     meta = []
     while len(rows) < n:
@@ -293,8 +306,10 @@ def random_rows(rep, pool, rnd, n, maxdepth, source):
         cx = cxs[-1]
         var = rnd.choice(variants_for(e, v, rnd, extra_setwise=1))
         mc.jitter(rnd)
-        env = mc.Env(cx, pool, rnd=rnd, **var)
+        env = mc.Env(cx, pool, rnd=rnd, **{k: x for k, x in var.items() if k != "twin"})
         val = mc.build_value(v, env)
+        if var.get("twin"):
+            mc.verdict(mc.build_matcher(mc.regex_twin(e, var["twin"]), mc.Env(cx, pool, rnd=rnd)), val)
         m = mc.build_matcher(e, env)
         sm0, sv0 = mc.snapshot(m), mc.snap_value(v, val)
         r1, _ = mc.verdict(m, val)
@@ -324,7 +339,7 @@ def random_rows(rep, pool, rnd, n, maxdepth, source):
             clause = "raised" if row["r"].startswith("E:") else "verdict"
             if var.get("shared"):
                 # does it also fail without sharing?  (decides which defect this is)
-                plain = mc.real_verdict(row["e"], row["v"], cx, pool, rnd=rnd, perm=var.get("perm", 0))
+                plain = mc.real_verdict(row["e"], row["v"], cx, pool, rnd=rnd, perm=var.get("perm", 0))  # noqa
                 if plain == sv:
                     clause += "-shared-object"
             failures.append(dict(base, clause=clause, expected=sv, observed=row["r"]))
